@@ -155,6 +155,26 @@ def conservation(a, fs, prev, cur, res, label, rep):
     for pos, ents in cm.items():
         for (di, kind, f, i, st, h) in ents:
             have.add((cur.maps[di]["name"], pos))
+    # the hash kept with a deleted block is the hash of what the parity still holds there: across a save it is the hash the
+    # block had before (as synced block or as deleted block), or - after a sync reloaded the state - the "unknown" hash
+    prevh = {}
+    for pos, ents in pm.items():
+        for (di, kind, f, i, st, h) in ents:
+            if st == BLK or kind == "deleted":
+                prevh[(prev.maps[di]["name"], pos)] = h
+    nchk = 0
+    for pos, ents in cm.items():
+        for (di, kind, f, i, st, h) in ents:
+            if kind != "deleted":
+                continue
+            k_ = (cur.maps[di]["name"], pos)
+            if k_ in prevh:
+                nchk += 1
+                if h != prevh[k_] and h != bytes(len(h)):
+                    V.append(("deleted-block-hash-changed-in-save", "%s: deleted block of %s at stripe %d carried hash %s, the saved state now says %s "
+                              "(neither the same nor 'unknown')" % (label, evidence.jsonable(k_[0]), pos, prevh[k_].hex(), h.hex()), rep))
+                    return
+    res["counters"]["deleted_hashes_compared"] = res["counters"].get("deleted_hashes_compared", 0) + nchk
     dropped = sorted(had - have, key=lambda x: x[1])
     if not dropped:
         return
@@ -202,9 +222,37 @@ def run_reached(case):
             nb = max(blocks_on(d) for d in a.disks if d != single) + rng.randint(-1, 4)
             fs.write(single, b"single-big-file", A.gen_bytes(rng, max(1, nb) * a.bs - rng.choice([0, 1, 17]), "rand"))
             force_full = True
+        # another third: a multi-block file is deleted together with a file of another disk that covers only INNER positions
+        # of its range, and the next sync is partial: the run of deleted blocks is split in the middle by the save
+        split_at = rng.randint(2, nsteps - 2) if (idx % 3 == 2 and len(a.disks) >= 2) else None
         for step in range(nsteps):
             T += rng.randint(100, 100000)
             k = rng.random()
+            if step == split_at:
+                try:
+                    c_ = a.load_content()
+                    n2i_ = {nm.encode(): i for i, nm in enumerate(a.disk_names)}
+                    big = sorted([f for f in c_.files if len(f.blocks) >= 3 and all(b[1] == BLK for b in f.blocks)], key=lambda f_: -len(f_.blocks))
+                    done_ = False
+                    for fa in big[:4]:
+                        lo, hi = fa.blocks[0][0], fa.blocks[-1][0]
+                        inner = [g for g in c_.files if g.disk != fa.disk and g.blocks and g.blocks[0][0] > lo and g.blocks[-1][0] < hi]
+                        da = n2i_[c_.disk_name(fa.disk)]
+                        if inner and fa.sub in fs.entries[da] and not fs.links_of(da, fa.sub):
+                            g = rng.choice(inner)
+                            dg = n2i_[c_.disk_name(g.disk)]
+                            if g.sub in fs.entries[dg] and not fs.links_of(dg, g.sub):
+                                fs.remove(da, fa.sub)
+                                fs.remove(dg, g.sub)
+                                done_ = True
+                                break
+                    if done_:
+                        hist.append("delete-file-and-inner-neighbour")
+                        res["counters"]["middle_split_setups"] = 1
+                        force_partial = True
+                        continue
+                except (FileNotFoundError, cnt.DecodeError):
+                    pass
             if force_full:
                 k = 0.5
             if step == empty_at:
